@@ -241,6 +241,12 @@ pub fn ack_reason_string(n: u64) -> String {
 impl World {
     /// Connects (CONNECT / CONNACK) and starts run().
     pub fn boot(cfg: WorldCfg) -> World {
+        Self::boot_early(cfg, &[])
+    }
+
+    /// Like `boot`, but operations of the given kinds are started (from alternating handle clones) after connect() has
+    /// returned and before run() is polled for the first time: they wait in the request queue.
+    pub fn boot_early(cfg: WorldCfg, early: &[Kind]) -> World {
         let mut sim = Sim::new(cfg.seed);
         sim.discipline = cfg.discipline;
         sim.order = cfg.order;
@@ -327,6 +333,13 @@ impl World {
         if w.connack_sum.is_none() {
             w.viol(P_ANY, "boot/connect-failed".into(), format!("connect() did not return ConnectRsp: {:?}", w.sim.last_ctx_result("connect")));
             w.blind = true;
+        }
+        if !early.is_empty() && !w.blind {
+            w.sim.note(|| format!("{} operations started before run() is first polled", early.len()));
+            for (j, k) in early.iter().enumerate() {
+                w.start(j % 2, *k);
+                w.sim.settle();
+            }
         }
         w.sim.cmd(Cmd::Run);
         w.sim.settle();
@@ -441,6 +454,8 @@ impl World {
 
     /// Creates the op's future without polling it.
     pub fn create(&mut self, h: usize, kind: Kind) -> usize {
+        // the requested handle clone may have been dropped by the script: any live clone will do
+        let h = if self.sim.handles.get(h).map(|x| x.is_some()).unwrap_or(false) { h } else { (0..self.sim.handles.len()).find(|&i| self.sim.handles[i].is_some()).expect("harness: no handle left") };
         let idx = self.sim.ops.len();
         let spec = self.spec_for(kind, idx);
         let i = self.sim.create_op(h, spec);
@@ -822,7 +837,7 @@ impl World {
         if self.term.is_none() {
             self.term = Some(Term::WriteErr);
         }
-        if self.sim.handles[0].is_some() {
+        if self.sim.handles.iter().any(|h| h.is_some()) {
             let i = self.start(0, Kind::Pub0);
             self.m[i].after_term = true;
         }
@@ -1405,6 +1420,11 @@ impl World {
     /// Compare the client's observable state with the model at a quiescent point.
     pub fn check(&mut self) {
         self.counters.checks += 1;
+        // every handle clone is gone once the script has dropped its own and the last pending operation (each owns a clone)
+        // has finished or been cancelled: from then on HandleClosed is the documented outcome of run()
+        if self.term.is_none() && !self.ctx_dropped && self.sim.handles.iter().all(|h| h.is_none()) && self.sim.ops.iter().all(|o| !o.task.alive()) {
+            self.term = Some(Term::HandlesDropped);
+        }
         // panics are never an allowed outcome
         if !self.sim.panics.is_empty() {
             let ps = std::mem::take(&mut self.sim.panics);
